@@ -25,8 +25,8 @@ def reply(t, out="ok", n="", **kw):
     return dict({"op": "reply", "t": t, "out": out, "n": n, "settle": True}, **kw)
 
 
-def tok(c, t):
-    return {"op": "token", "c": c, "tok": t, "tid": "tid1", "settle": True}
+def tok(c, t, tid="tid1"):
+    return {"op": "token", "c": c, "tok": t, "tid": tid, "settle": True}
 
 
 def reset(res=(), acc=()):
@@ -61,6 +61,16 @@ WINDOWS = {
               send("c1", "call", "a", action="a"), send("c1", "subscribe", "a"), send("c1", "unsubscribe", "a"),
               send("c1", "subscribe", "b"), send("c1", "get", "b"), reply("call", "ok"), ev("a", "change", k="r1", val=P("0"))],
         pre={}, reuse=[10], K=5),
+    # a resource held only indirectly with a cached verdict, then triggers and new requests
+    "win-indirect": dict(
+        cfg=dict(family="win-indirect", resources={"a": M(x=P("1"), r1=R("b")), "b": M(y=P("1"))}),
+        prologue=[opn("c1"), opn("c2"), tok("c1", '"t1"'), tok("c2", '"u1"', "tid2"), send("c1", "subscribe", "b"), Q, send("c1", "subscribe", "a"), Q,
+                  send("c1", "unsubscribe", "b"), Q],
+        pool=[tok("c1", '"t2"'), tok("c1", '"t3"', ""), ev("b", "reaccess"), reset(acc=["b"]), reply("access", "ok"), reply("access", "deny"),
+              send("c1", "subscribe", "b"), send("c1", "get", "b"), send("c1", "call", "b", action="a"), ev("b", "custom"),
+              send("c1", "unsubscribe", "a"), {"op": "tokenreset", "tids": ["tid1"], "settle": True},
+              {"op": "tokenreset", "tids": ["tid2"], "settle": True}, reply("auth", "ok"), send("c2", "subscribe", "b")],
+        pre={}, reuse=[5], K=4),
     # a query event is being handled (query requests unanswered)
     "win-query": dict(
         cfg=dict(family="win-query", resources={
